@@ -346,6 +346,9 @@ def unit_twist_cases(ctx, algebra, tier, seed):
             for qn, q in (('0', np.zeros(3)), ('g', np.array([0.5, -1.5, 2.0])), ('1e3', 1e3 * alph.unit((1, 2, 3)))):
                 units.append(('rev(%s,q=%s)' % (an, qn), np.r_[-np.cross(a, q), a]))
             units.append(('pris(%s)' % an, np.r_[a, 0, 0, 0]))
+            # screws: unit rotational part, translation of `pitch` per radian along the axis (not periodic in theta)
+            for hn, h in (('0.5', 0.5), ('-2', -2.0)):
+                units.append(('screw(%s,q=g,h=%s)' % (an, hn), np.r_[-np.cross(a, np.array([0.5, -1.5, 2.0])) + h * a, a]))
     elif algebra == 'so2':
         units = [('w=+1', np.array([1.0])), ('w=-1', np.array([-1.0]))]
     else:
